@@ -50,12 +50,16 @@ def tokens(text):
     return out
 
 
-def core_py(e):
-    """mirror of Parse.core (kept in sync by hand; the model's own answer is what counts: see core-check)"""
+def core_py(e, elem=False):
+    """mirror of Parse.core (kept in sync by hand; the model's own answer is what counts: see core-check).
+    elem: e is an element of a display / a positional argument (a starred expression is allowed there)"""
     t = type(e).__name__
-    c = core_py
+    c = lambda x: core_py(x) and not isinstance(x, ast.Starred)
+    el = lambda x: core_py(x, True)
     if t in ("Name", "Constant"):
         return True
+    if t == "Starred":
+        return elem and c(e.value)
     if t == "BinOp":
         return c(e.left) and c(e.right)
     if t == "UnaryOp":
@@ -74,7 +78,11 @@ def core_py(e):
     if t == "Attribute":
         return c(e.value)
     if t == "Call":
-        return not e.keywords and c(e.func) and all(c(a) for a in e.args)
+        return c(e.func) and all(el(a) for a in e.args) and all(c(k.value) for k in e.keywords)
     if t == "Subscript":
-        return c(e.value) and c(e.slice) and not isinstance(e.slice, (ast.Tuple, ast.Slice, ast.Starred))
+        return c(e.value) and c(e.slice) and not isinstance(e.slice, (ast.Tuple, ast.Slice))
+    if t in ("List", "Tuple"):
+        return all(el(x) for x in e.elts)
+    if t == "Set":
+        return len(e.elts) >= 1 and all(el(x) for x in e.elts)
     return False
